@@ -54,13 +54,27 @@ func loadKnown(path string) ([]knownFinding, []string) {
 		}
 		rest := strings.TrimSpace(ln[len("known:"):])
 		kf := knownFinding{}
-		for _, f := range strings.SplitN(rest, " ", 3) {
-			if strings.HasPrefix(f, "property=") {
-				kf.Prop = f[len("property="):]
-			} else if strings.HasPrefix(f, "key=") {
-				kf.Key = f[len("key="):]
-			} else {
-				kf.Text = f
+		// known: property=<id> key=<instance key, may contain spaces> :: <what fails>
+		if i := strings.Index(rest, " :: "); i >= 0 {
+			kf.Text = strings.TrimSpace(rest[i+4:])
+			rest = rest[:i]
+		}
+		if strings.HasPrefix(rest, "property=") {
+			j := strings.Index(rest, " ")
+			if j < 0 {
+				continue
+			}
+			kf.Prop = rest[len("property="):j]
+			rest = strings.TrimSpace(rest[j+1:])
+		}
+		if strings.HasPrefix(rest, "key=") {
+			kf.Key = rest[len("key="):]
+			if kf.Text == "" {
+				// legacy form without " :: ": the key ends at the first space
+				if j := strings.Index(kf.Key, " "); j >= 0 {
+					kf.Text = strings.TrimSpace(kf.Key[j+1:])
+					kf.Key = kf.Key[:j]
+				}
 			}
 		}
 		out = append(out, kf)
